@@ -12,964 +12,1222 @@ Definition show_fres (r : fres) : string :=
   end.
 Definition check (rs : list rune) : string := digest (show_fres (format_res rs)).
 Definition full (rs : list rune) : string := show_fres (format_res rs).
-Eval vm_compute in ("<<<M213>>>" ++ check (runes_of_ascii "
-packet body
-{@tag(
-    3 ) i16 options1 ,  repeat string
-body ,
-@calculatedFrom( // trailing space 
-""a\""b""
-) x_y_z @calculatedFrom(
-""a\\"") `it's` , match o as BodyLength
-{ 00
-:
-pack,
-1 : u	,
-[255,255,""// no comment"" ]
-    : Packet	[ 65535 ] :  i64_ , }
-// @lengthOf(
-//
-,// a // b
-@calculatedFrom( // c
-""" ++ [233]%N ++ runes_of_ascii "t" ++ [233]%N ++ runes_of_ascii """ ) string// `tick` ""quote"" 'q'
-len `tab	here`,
-    @tag( 0123456789
-) repeat
-    //	t
-    matchKey A `a\`,
-    i8i8 Packet , stringy @calculatedFrom( ""x y"" ) ,f32a As
-`crlf
-line` ,u128{ repeat
-    int  {
-    repeat
-    zchar[255 ] a1`{ , }`
-,
-// a // b
-// a // b
-match calculatedFrom as body//	t
+Eval vm_compute in ("<<<M1407>>>" ++ check (runes_of_ascii "
+packet  o	// @lengthOf(
+
 {
-    0 // " ++ [27880; 37322]%N ++ runes_of_ascii "
-:body	42
-    // c
-    :tag // @lengthOf(
-, ""1""	:packetx , ""it's"":  roots,}, i32 u @calculatedFrom(// " ++ [128512]%N ++ runes_of_ascii " emoji
-""a\\"" ) ,
-}	,
-string_`crlf
-line`, _x  , repeat lengthOf crc ,	}, // " ++ [27880; 37322]%N ++ runes_of_ascii "
-}
-MetaData rootA {
-uint8	tag , string	Z9_ `u8 x,` ,
-    f64 float ,
-    Logon
-falsey`a\`
-, } packet len{  char[] u	`// not a comment`, char[] Header
-`// not a comment`	, string charz
-// a // b
-/// triple
-`tab	here` ,
-    //
-    @leftPad
-    // packet A { u8 x, }
-    ( )@lengthOf(
-a1)
-// " ++ [128512]%N ++ runes_of_ascii " emoji
-//x
-len
-crc, @leftPad ( ' ' )Packet @calculatedFrom(""" ++ [128512]%N ++ runes_of_ascii """ ) , repeat uint8 a1
-, match
-    T as As { ""packet"": Logon , [	""" ++ [128512]%N ++ runes_of_ascii """
-    , 0 ]
-: i64_ , [ ""packet"" , 7
-    ]
-    : string_ ,
-} , repeat//
-zchar[
-007 ] zchar `{ , }` ,
-    }
-")).
-Eval vm_compute in ("<<<M1410>>>" ++ check (runes_of_ascii "// top
-options {
-    // c1a
-    // c1b
-    StringPrefixLenType = u8;
-    ArrayPrefixLenType = u32;// c9
-    FixedStringPadFromLeft = true;
-    // c13
-    FixedStringPadChar = ' ';
-    // c17
-}// c18a
+@leftPad
+(
 
-// c18b
-packet Leg {
-}
-
-packet Heartbeat {
-    // c25
-    zchar[6] msgKind,
-    @rightPad('0')
-    // c34
-    char[3] Qty,
-    zchar[9] Side2,
-    // c44
-    i8 Acct,
-    // c47
-}// c48a
-
-// c48b
-packet Logout {
-    // c51a
-    // c51b
-    int8 x,
-    // c54
-}// c55
-
-packet Order {
-    // c58a
-    // c58b
-    char[] Acct,// c61
-    zchar[8] count,
-    u32 OrderId,
-    uint8 lastPx,
-    u16 clOrdID,
-    zchar[7] Note,
-    // c80
-}// c81
-
-root packet Reject {
-    @leftPad(' ')
-    char[8] Side2,// c94a
-    // c94b
-    i8 clOrdID,
-    // c97
-    repeat f32 x,
-    // c101
-    u32 lastPx,
-    // c104
-    match lastPx as Body {
-        // c109a
-        // c109b
-        [30, 147] : Heartbeat,
-        // c117
-        134 : Leg,
-        // c121
-        183 : Logout,
-        40 : Order,
-        // c129a
-        // c129b
-    },// c131
-    u16 Ref @calculatedFrom(""CRC32""),
-    // c137
-}// c138")).
-Eval vm_compute in ("<<<M176>>>" ++ check (runes_of_ascii "
-packet i8i8 { @tag( 0 ) int32
-leftPad `it's`
-, repeat char[]Header`crlf
-line`
-, @calculatedFrom( ""\" ++ [233]%N ++ runes_of_ascii """ )/// triple
-repeat
-    uint8 float , @rightPad
-('\x00' ) char[] zchar@lengthOf(
-// a // b
-//x
-leftPad )
-`
-` , Z9_ ,
-@lengthOf(
-x ) match As as
-    tag {	""a	b""  :
-string_ [
-10 , 7 , ""1"" , 255
-,
-3
-    , 42 ,
-    //
-    0123456789, """ ++ [128512]%N ++ runes_of_ascii """ ] :x_y_z ,""CRC32""
-: Z9_  , 00
-    // c
-    : Logon
-    ,
-} , @tag(007) o {
-    char
-    Packet
-@lengthOf(
-    //	t
-    repeatCount
-) , } , @lengthOf(
-// " ++ [27880; 37322]%N ++ runes_of_ascii "
-/// triple
-pack
-) float64 rootA `two words`
-    ,	repeat char[] BodyLength ,}
-packet Z9_{ match
-    // packet A { u8 x, }
-    As
-as
-    a1{ //
-0: trueish // `tick` ""quote"" 'q'
-,} ,
-/// triple
-// " ++ [27880; 37322]%N ++ runes_of_ascii "
-} root packet u8x {
-/// triple
-// " ++ [128512]%N ++ runes_of_ascii " emoji
-repeat
-string Logon `tab	here` , // " ++ [128512]%N ++ runes_of_ascii " emoji
-}	options { _x
-=
-    ""packet""
-;f32a =007 } packet i8i8 {@calculatedFrom( ""CRC32"" )
-A @lengthOf(
-a1
 )
-, } 	 ")).
-Eval vm_compute in ("<<<M1937>>>" ++ check (runes_of_ascii "options 
-{
-	}  packet
-	u8x
 
-{  string
+@tag(
+00 
+)
+    int16	int
 
-uint8x
-@calculatedFrom(
-	""{,}"")
-	`crlf
-line`  , } MetaData
-	falsey {	Logon packetx  `tab	here`
-,  }
-    root  packet
-o
-{
-falsey
-	@calculatedFrom(
-//x
-// " ++ [27880; 37322]%N ++ runes_of_ascii "
-""" ++ [28040; 24687]%N ++ runes_of_ascii """)
+    @lengthOf( Header)
 
-,
-
-@tag( 0123456789
-
-    )	// `tick` ""quote"" 'q'
+`
+`
+	,@leftPad 
+( '\x00'
+)
 char[
+
+00	// c
+
+] body
+
+    @lengthOf(  // packet A { u8 x, }
+  a1 ) `" ++ [28040; 24687; 31867; 22411]%N ++ runes_of_ascii "`
+    ,	}packet roots
+
+    { Logon  `crlf
+line` ,
+
+    } 
+packet 	 // `tick` ""quote"" 'q'
+  _x
     // `tick` ""quote"" 'q'
-  0123456789
-] 
-u128 @calculatedFrom(	""{,}""  )
-
-, @tag(	00
-	)
-
-    @lengthOf(stringy)
-	@tag(	4294967296)rootA
-    Header  ,
-    @lengthOf( 
-As
-	)  repeat 
-leftPad
-
-    `// not a comment`  // c
-
+  //
+{
+zchar[  4294967296
+    ]Header `
+`
 	,
-
-i8 leftPad@calculatedFrom(  """"
-	)
-	,@tag( 
-10 )
-zchar[	007
-]	packetx
-
-    @lengthOf(// packet A { u8 x, }
-  u8x
-	)
-    `" ++ [28040; 24687; 31867; 22411]%N ++ runes_of_ascii "`
-,}
-    packet
-
-options1
-{  
-  //	t
-
-  // trailing space 
-
-falsey // packet A { u8 x, }
-{	//	t
-    zchar[
-	3]  // " ++ [128512]%N ++ runes_of_ascii " emoji
-	  roots
+	chars @calculatedFrom(  ""1"" )	// packet A { u8 x, }
+  ,
+match
+As
+    // 50% %s
 //
-// a // b
+		as 
+// @lengthOf(
+  //x
+  	A
+{
+""`tick`"" // " ++ [27880; 37322]%N ++ runes_of_ascii "
 
-	, u32 
-Header // c
-		,
-} 
-, // a // b
+: 
+u  }
 
-	}
+    , repeat
+    string
+zchar, 
+repeat  packetx
+{
+	match
+    pack
+	//x
+    as
 
-")).
-Eval vm_compute in ("<<<M90>>>" ++ check (runes_of_ascii "root packet lengthOf
-{ // a // b
-match i64_  as options1{	""// no comment"":
-    // packet A { u8 x, }
-    f32a
-    // @lengthOf(
-    , 65535 :
-    falsey, } ,  @tag(
-0
-)  char[]
-    body
-@lengthOf(  lengthOf ) ,	u64 string_ `it's`,@lengthOf( string_ // packet A { u8 x, }
-)crc {repeat
-zchar[ 3
-] u	,	pack // packet A { u8 x, }
-`a\`// trailing space 
-,char[] crc `` , } //x
-,int16 // packet A { u8 x, }
-metadata `line1
-line2`, }root	packet //	t
-leftPad
-{ repeat	zchar[
-4294967296 //x
-] MetaDataX
-    ,@tag( 10 // `tick` ""quote"" 'q'
-) match  tag as falsey
-{ 7:
-    BodyLength
-, 0 : i64_ ,} , repeat char[ 255
-    // @lengthOf(
-    ] A
+lengthOf  {
+
+3  :
+calculatedFrom ,	3  
+  // packet A { u8 x, }
+	: metadata	,	""abc""  // " ++ [128512]%N ++ runes_of_ascii " emoji
+      :
+
+    falsey,4294967296
+    : len 
 ,
-char[ 7]
-trueish @calculatedFrom(	""a\\"" ) `two words`
-// " ++ [128512]%N ++ runes_of_ascii " emoji
-//	t
-, i16
-Logon, }
+} ,	match
+
+    Packet 
+as
+    repeatCount 
+{ [
+""a\\""
+	,1, ""a\\""
+,
+
+0
+,""packet""
+	,
+    ""a	b""
+]
+:f32a
+
+, 
+4294967296 : tag 
+1:
+	packetx 
+, 
+[""\n""
+,42 
+,
+4294967296	,	""a	b"",
+10
+,
+
+255
+,
+007
+] :
+    chars
+
+    ,
+    [
+
+""1"" ,
+
+    ""// no comment""	, 
+0
+
+,// 50% %s
+	1 ,	""`tick`""	,3 
+, 
+42 
+,
+
+    ""\" ++ [233]%N ++ runes_of_ascii """
+]
+:BodyLength
+}
+	,// trailing space 
+	  } ,	string u8x`" ++ [28040; 24687; 31867; 22411]%N ++ runes_of_ascii "`	,  repeat
+
+    f32a
+{
+
+    char[
+
+7  ]  // " ++ [128512]%N ++ runes_of_ascii " emoji
+	x_y_z
+	`
+` // trailing space 
+,
+
+},
+
+}
+
+MetaData
+
+    Packet
+	{
+chars
+u 
+,  char[]
+u8x, 
+
+// 50% %s
+  	// trailing space 
+      x_y_z 
+	/// triple
+	asx	`" ++ [28040; 24687; 31867; 22411]%N ++ runes_of_ascii "`
+
+, 
+int8
+	Header  `{ , }`	,
+	zchar[
+    4294967296
+
+    ]	rootA `u8 x,`  
+  /// triple
+    //
+    ,
+char[]
+
+    calculatedFrom
+, 
+}
 ")).
-Eval vm_compute in ("<<<M1951>>>" ++ check (runes_of_ascii "options {
+Eval vm_compute in ("<<<M1341>>>" ++ check (runes_of_ascii "// top
+packet
+    // c0
+Frame // c1a
+  // c1b
+{
+    // c2
+u8 // c3
+HK // c4
+, // c5
+u8 // c6
+BK , // c8a
+  // c8b
+u8
+    // c9
+TK // c10
+, match // c12
+HK
+    // c13
+as Hdr
+    // c15
+{ // c16a
+  // c16b
+1 // c17
+: // c18a
+  // c18b
+HdrA // c19a
+  // c19b
+, 2 // c21a
+  // c21b
+:
+    // c22
+HdrB , // c24
 }
-
-packet u8x {
-    string uint8x @calculatedFrom(""{,}"") `crlf
-        line`,
+    // c25
+, // c26a
+  // c26b
+match // c27a
+  // c27b
+BK
+    // c28
+as
+    // c29
+Body { 1 // c32a
+  // c32b
+: // c33a
+  // c33b
+BodyA // c34a
+  // c34b
+, // c35a
+  // c35b
+2
+    // c36
+:
+    // c37
+BodyB , // c39a
+  // c39b
+} ,
+    // c41
+match
+    // c42
+TK // c43
+as Trl // c45a
+  // c45b
+{ 1 // c47
+: // c48
+TrlA // c49
+, // c50
+} ,
+    // c52
 }
-
-MetaData falsey {
-    Logon packetx `tab	here`,
+    // c53
+packet HdrA // c55
+{ // c56
+u8 // c57
+a // c58a
+  // c58b
+, // c59
+} // c60a
+  // c60b
+packet HdrB // c62
+{
+    // c63
+u16 b
+    // c65
+, } packet
+    // c68
+BodyA // c69
+{ // c70
+u32
+    // c71
+c
+    // c72
+, // c73
 }
-
-root packet o {
-    falsey @calculatedFrom(""" ++ [28040; 24687]%N ++ runes_of_ascii """),
-    @tag(0123456789)
-    // `tick` ""quote"" 'q'
-    char[0123456789] u128 @calculatedFrom(""{,}""),
-    @tag(00)
-    @lengthOf(stringy)
-    @tag(4294967296)
-    rootA Header,
-    @lengthOf(As)
-    repeat leftPad `// not a comment`,
-    i8 leftPad @calculatedFrom(""""),
+    // c74
+packet // c75
+BodyB // c76
+{ u64 d , // c80a
+  // c80b
+}
+    // c81
+packet // c82
+TrlA
+    // c83
+{ // c84a
+  // c84b
+u8 // c85
+e
+    // c86
+, // c87a
+  // c87b
+} root
+    // c89
+packet
+    // c90
+Msg // c91
+{ // c92
+Frame // c93a
+  // c93b
+, // c94a
+  // c94b
+u8 // c95a
+  // c95b
+x
+    // c96
+, // c97
+}
+    // c98
+")).
+Eval vm_compute in ("<<<M1514>>>" ++ check (runes_of_ascii "root packet o {
+    repeat zchar[65535] o,
+    repeat char[0] zchar,
+    int64 x `
+    `,// a // b
+    string msg_type,
+    // c
+    @leftPad('\x00')
+    repeat calculatedFrom A,
+    string Header @lengthOf(a1) `crlf
+    line`,
+    repeat crc {
+        f32 Pad,
+        match charz as Logon {
+            [
+                ""1"", ""CRC32"", """ ++ [28040; 24687]%N ++ runes_of_ascii """, 00, ""1"",
+                ""{,}"", """ ++ [28040; 24687]%N ++ runes_of_ascii """, ""{,}""
+            ] : uint8x,
+            [3, ""CRC32""] : lengthOf,
+            42 : u128,
+        },
+        Z9_,
+        float64 u128 `{ , }`,
+    },
+    u16 calculatedFrom,
+    zchar[3] calculatedFrom,
     @tag(10)
-    zchar[007] packetx @lengthOf(u8x) `" ++ [28040; 24687; 31867; 22411]%N ++ runes_of_ascii "`,
+    match charz as _x {
+        ""abc"" : zchar,
+        ""packet"" : roots,
+        255 : options1,
+        ""1"" : uint8x,
+        // 50% %s
+    },
+}
+
+MetaData len {
+    uint8x len,
 }
 
 packet options1 {
-    //	t
-    // trailing space 
-    falsey {
-        //	t
-        zchar[3] roots,
-        u32 Header,
-    },// a // b
-}")).
-Eval vm_compute in ("<<<M131>>>" ++ check (runes_of_ascii "
-root
-packet
-u8x{ char
-// trailing space 
-// @lengthOf(
-i64_ ,repeat char[1
-] Z9_ , @tag(
-//x
-// " ++ [128512]%N ++ runes_of_ascii " emoji
-42
-) repeat Logon MetaDataX , @leftPad
-    //
-    ( )
-    Foo
-@lengthOf( As
-    ) // " ++ [128512]%N ++ runes_of_ascii " emoji
-, match u128	as //	t
-calculatedFrom {// " ++ [128512]%N ++ runes_of_ascii " emoji
-4294967296:
-BodyLength,
-    3:  A , //
-[ 4294967296//
-, ""packet""] : o	, 65535 : roots } ,
-repeat Pad { uint64 x @calculatedFrom( """ ++ [128512]%N ++ runes_of_ascii """
-    ) , a1 @lengthOf( As)
-    `line1
-line2` ,	repeat string_{repeat uint32 _x	, f32
-MetaDataX `it's`
-    //	t
-    , u64 As  @lengthOf( crc ) , } ,
-    roots , }, zchar[  00] // @lengthOf(
-u128, }
-//	t
-")).
-Eval vm_compute in ("<<<M296>>>" ++ check (runes_of_ascii "MetaData u128
-{  zchar[ 3 ] matchKey	`crlf
-line` //
-, } // packet A { u8 x, }
-options
-{ //x
-} root	packet rootA
-    { @calculatedFrom(
-    ""{,}"" ) repeat u16 len ,repeat body,i8i8 @lengthOf( packetx),metadata int `line1
-line2` ,  uint8x `two words` // c
-, int16 //
-x_y_z
-, repeatCount , Logon {  repeat// trailing space 
-i8 Packet `line1
-line2`
-, } ,}
-options
-{// " ++ [128512]%N ++ runes_of_ascii " emoji
-lengthOf
-//
-// trailing space 
-= ' ' ;
-i64_ = ""{,}"" ; msg_type
-= '0'
-; u=
-// packet A { u8 x, }
-// " ++ [27880; 37322]%N ++ runes_of_ascii "
-i32;_x = ""abc""
-    // packet A { u8 x, }
-    ; }
-")).
-Eval vm_compute in ("<<<M193>>>" ++ check (runes_of_ascii "
-root packet lengthOf{
-    char[ 3 ] Pad ,	@rightPad
-    (  '0'
-)
-    crc `doc` ,i32 //x
-uint8x
-,	zchar { match Logon  as int { [ 0 , """ ++ [233]%N ++ runes_of_ascii "t" ++ [233]%N ++ runes_of_ascii """] :o , ""// no comment"" :len ,
-} , asx
-{
+    @tag(10)
+    i8 roots @lengthOf(lengthOf),
+    char[1] u128 `" ++ [28040; 24687; 31867; 22411]%N ++ runes_of_ascii "`,
+    a1 tag `say ""hi""`,
+    string asx `// not a comment`,
+}
+
+packet calculatedFrom {
+    int64 a1,
+    // a // b
     //x
-    char[	10 ]
-u128 // a // b
-@lengthOf(  x_y_z)`say ""hi""`, }
-/// triple
-//
-, char[
-1 ] A, u// c
-chars
-    `` , }, repeat matchKey
-{ //x
-string trueish@calculatedFrom(
-    ""a	b""  )  , repeat
-    // packet A { u8 x, }
-    i8 msg_type `it's` ,	} , /// triple
-}
-packet float { }")).
-Eval vm_compute in ("<<<M1926>>>" ++ check (runes_of_ascii "// top
-options {
-    // c1
-    uint8x = 007;// c5
-    lengthOf = i8;// c9
-}// c10
-
-packet i64_ {
-    // c13
-    @calculatedFrom(""1"")
-    // c16
-    @tag(3)
-    // c19
-    @lengthOf(rootA)
-    // c22
-    repeat int8 Packet `u8 x,`,// c27
-}// c28
-
-root packet stringy {
-    // c32
-    @rightPad(' ')
-    // c36
-    repeat char[10] repeatCount,// c42
-    @tag(255)
-    // c45
-    float64 msg_type @calculatedFrom(""packet""),// c51
-}// c52")).
-Eval vm_compute in ("<<<M220>>>" ++ check (runes_of_ascii "root
-    packet string_{
-//	t
-//x
-i16 o /// triple
-,
-    @tag( 4294967296
-)
-repeat char o ,Foo {match MetaDataX // trailing space 
-as leftPad
-    { 0123456789 : calculatedFrom ,
-[ 0 ]
-: u128}
-, repeat
-u
-// `tick` ""quote"" 'q'
-// @lengthOf(
-{
-    zchar[65535]body@lengthOf( float  )
-,o , asx @calculatedFrom( ""{,}"" ) `it's` // `tick` ""quote"" 'q'
-,}// `tick` ""quote"" 'q'
-,
-} ,  }
-")).
-Eval vm_compute in ("<<<M1787>>>" ++ check (runes_of_ascii "MetaData Header {
-}
-
-packet crc {
-    match zchar as leftPad {
-        7 : As,
-        0 : Packet,
-        [00] : Pad,
-        //x
-        //x
-        ""// no comment"" : calculatedFrom,
-        3 : string_,
-    },
-    falsey packetx `crlf
-        line`,// " ++ [27880; 37322]%N ++ runes_of_ascii "
-    @tag(42)
-    repeat u64 packetx,
-    @calculatedFrom(""1"")
-    repeat u16 calculatedFrom,
 }")).
-Eval vm_compute in ("<<<M1338>>>" ++ check (runes_of_ascii "options {
-    LittleEndian = true;
-    StringPrefixLenType = u16;
-    FixedStringPadChar = ' ';
-}
-packet Logon {
-    @leftPad('0') char[10] tag7,
-}
-root packet Ack {
-    int32 Px,
-    uint16 count,
-    string Qty,
-    string OrderId,
-    string Flags,
-    u8 x,
-    match x as Body {
-        [58, 169] : Logon,
-    },
-}
-")).
-Eval vm_compute in ("<<<M262>>>" ++ check (runes_of_ascii "  packet  Logon
-    { o Header ,	Header
-, @lengthOf(
-u )	char[ 255 ] tag `tab	here`, char[]falsey ,
-    @lengthOf(	zchar )
-    @rightPad (
-) float roots// @lengthOf(
-,
-@calculatedFrom(	""// no comment"") i64
-u8x,
-} options { metadata = '0' ;_x = 4294967296 ; Packet
-    =
-    '0'
-;
-    }
+Eval vm_compute in ("<<<M1891>>>" ++ check (runes_of_ascii "/// triple
 
-")).
-Eval vm_compute in ("<<<M1274>>>" ++ check (runes_of_ascii "// top
-options
-    // c0
-{ // c1a
-  // c1b
-FixedStringPadFromLeft
-    // c2
-= // c3
-true
-    // c4
-; // c5a
-  // c5b
-}
-    // c6
-root // c7
-packet P {
-    // c10
-char[ // c11a
-  // c11b
-4 // c12a
-  // c12b
-] z // c14
-,
-    // c15
-} // c16a
-  // c16b
-")).
-Eval vm_compute in ("<<<M1328>>>" ++ check (runes_of_ascii "packet
+  packet  falsey{ }packet
+	Logon
 
-    Logon
     {
+@tag(// @lengthOf(
 
-string
+	1	) // c
+	body
 
-    user
-,} root	packet	Frame{ u8 K 
+a1
+    ,
+	repeat
+
+    BodyLength ,repeat 
+Foo
+{ 
+match	rootA	as x	{[ 
+3 
+] 
+: 
+//
+	  i8i8 },
+    match
+    charz 
+as  // a // b
+  charz
+
+    {  007
+	: 
+Packet ,	[ ""// no comment""
+	] 	 // trailing space 
+
+:	/// triple
+
+  A,
+[
+
+    10]:  float
+	,
+
+    [	""`tick`"" ,  10]:
+    int
+
+    ,
+
+    } 
+, }
+
+    ,  // " ++ [27880; 37322]%N ++ runes_of_ascii "
+
+	repeat
+
+    u8x
+,asx
+
+    { int32
+    Packet
+	@calculatedFrom( 
+
+// 50% %s
+// a // b
+  ""// no comment"")
+, }
+	,
+    @lengthOf(
+leftPad )	int8
+	float 
+	    //
+
+  // @lengthOf(
+  	@calculatedFrom(  ""CRC32"" )
+
+    ,
+    lengthOf 	 // packet A { u8 x, }
+  {
+char[ 65535] string_@calculatedFrom(
+"""" ) 	 // a // b
+    ,
+}
+	, len@calculatedFrom(""" ++ [233]%N ++ runes_of_ascii "t" ++ [233]%N ++ runes_of_ascii """ )
+,  @lengthOf(
+
+    As
+) 
+char[
+	1	]
+    BodyLength// " ++ [27880; 37322]%N ++ runes_of_ascii "
+  , }	// a // b
+")).
+Eval vm_compute in ("<<<M194>>>" ++ check (runes_of_ascii "
+root
+    packet u8x{
+@calculatedFrom(	""it's""  )
+    zchar[
+    007 ]  Logon, @rightPad( ' ' ) @calculatedFrom(""\n"" ) @lengthOf( Header) repeat
+zchar[0 ] options1	,
+// " ++ [27880; 37322]%N ++ runes_of_ascii "
+// `tick` ""quote"" 'q'
+@lengthOf(i8i8
+    ) @lengthOf(
+repeatCount
+) zchar[
+65535  ] packetx
+`doc`	,
+    uint32 Foo	@calculatedFrom(
+""1"" ) , matchKey ,  int16  Header	,  } options {
+    x= 7 } MetaData
+// " ++ [27880; 37322]%N ++ runes_of_ascii "
+// `tick` ""quote"" 'q'
+string_
+    { trueish trueish  `it's`
+, char[4294967296 ]
+    x //x
 ,
-    match  K 
-as Body
-	{ 1
-:
-    Logon ,2
-: Logout  ,
+    // a // b
+    string u
+    `100% of %d`, f32
+stringy
+    `// not a comment` ,
+    // `tick` ""quote"" 'q'
+    string
+    BodyLength	,// a // b
+}  options
+    { // @lengthOf(
+Logon = 10 roots = uint8 ;
+float=
+    ""a\\""  ; Header	=""CRC32"" ;
+    }")).
+Eval vm_compute in ("<<<M270>>>" ++ check (runes_of_ascii "packet crc
+    {// a // b
+@tag( 4294967296
+) @leftPad ('\x00'  ) repeat zchar[
+4294967296 // " ++ [128512]%N ++ runes_of_ascii " emoji
+]Packet
+, @leftPad ( '0')@tag( 3 ) @tag(
+    7  )  repeat  matchKey { u32
+u
+,} , @lengthOf(chars ) /// triple
+@calculatedFrom( ""a	b""
+// 50% %s
+// @lengthOf(
+)
+@tag( 0123456789 )zchar[255] Pad
+,
+repeat uint64 u128
+// a // b
+// trailing space 
+`two words` , @calculatedFrom( ""abc"" ) i8 packetx , string	lengthOf
+, // " ++ [27880; 37322]%N ++ runes_of_ascii "
+} root packet stringy
+{@leftPad (
+    '0' ) matchKey //x
+roots ,
+// @lengthOf(
+// trailing space 
+@tag( 7) int8// c
+A
+@lengthOf(repeatCount )
+    `{ , }` ,
+    repeat u {// " ++ [27880; 37322]%N ++ runes_of_ascii "
+int16 Foo `it's` , string u, }, } // @lengthOf(")).
+Eval vm_compute in ("<<<M1857>>>" ++ check (runes_of_ascii "
 
-}  ,
-	Tail, }
+  MetaData
+pack
+
+{ float32	Header  `two words`	//
+    ,
+	rootA
+charz 
+`" ++ [233]%N ++ runes_of_ascii "`,	//
+  int32
+
+falsey	`doc` 
+,
+	} 
+packet
+
+matchKey { i64_ {
+
+float64 tag
+
+    @lengthOf(	msg_type)
+    ,
+u8x
+
+f32a
+	,
+
+    Pad{
+	char[10] 
+// trailing space 
+    // @lengthOf(
+  f32a
+
+`// not a comment`
+	,
+}
+    ,
+
+int
+	{
+
+    repeat  packetx{
+    char[]	T
+	@calculatedFrom(""it's""
+	),
+}
+	, }
+,	}
+,
+
+    char[ 255]trueish
+@lengthOf(calculatedFrom 	 // " ++ [128512]%N ++ runes_of_ascii " emoji
+	) //	t
+
+  ,repeat	rootA string_,} packet x_y_z {@lengthOf( i64_
+
+)
+BodyLength  `" ++ [233]%N ++ runes_of_ascii "` 
+	    // @lengthOf(
+  	//	t
+, } ")).
+Eval vm_compute in ("<<<M1447>>>" ++ check (runes_of_ascii "
+
+  root
 
     packet
-Logout
-	{ u16	reason ,
+MetaDataX {u16	Logon
 
-}
-	packet  Tail
-{u32	crc
-    ,  }
-")).
-Eval vm_compute in ("<<<M38>>>" ++ check (runes_of_ascii "options
-{ falsey
-    /// triple
-    = false ; falsey=
-    //
-    int16// `tick` ""quote"" 'q'
-;
-    // `tick` ""quote"" 'q'
-    A =
-    // trailing space 
-    u32  ;
-    trueish	= 1  ;
-    }
-")).
-Eval vm_compute in ("<<<M44>>>" ++ check (runes_of_ascii "
-packet repeatCount
-    {
-trueish , } packet uint8x
-{/// triple
-match u8x as calculatedFrom
-    { [ 4294967296 ]: len ,
-[ """ ++ [128512]%N ++ runes_of_ascii """ ,	""" ++ [233]%N ++ runes_of_ascii "t" ++ [233]%N ++ runes_of_ascii """ , 255 , //
-1
-] : falsey , } , }
-")).
-Eval vm_compute in ("<<<M453>>>" ++ check (runes_of_ascii "packet uint8x
-{ match pack
-    as msg_type	{
-    0123456789 :	float
-}
-@lengthOf(
-} packet //	t
-a1
-    { } options {packetx
-    = '\x00'	; u128= ""a	b""  ; }
-")).
-Eval vm_compute in ("<<<M1446>>>" ++ check (runes_of_ascii "  MetaData	leftPad
-    { chars
+@lengthOf(body)  ,	match
 
-MetaDataX	,
-    }
-    packet  repeatCount { char[255 ]uint8x `" ++ [233]%N ++ runes_of_ascii "`,
-	} MetaData
+    lengthOf as  As
 
-    pack
-	{
+    { 
+    // " ++ [128512]%N ++ runes_of_ascii " emoji
+	7
 
-    As	Foo	,}  
-      // c")).
-Eval vm_compute in ("<<<M548>>>" ++ check (runes_of_ascii "packet uint8x
-{ match pack
-    as msg_type	{
-    0123456789 :	float
-}
-,
-} packet //	t
-a1
-    { } options {packetx
-    ''= '\x00'	; u128= ""a	b""  ; }
-")).
-Eval vm_compute in ("<<<M452>>>" ++ check (runes_of_ascii "packet uint8x
-{ match pack
-    as msg_type	{
-    0123456789 :	float
-}
-}
-, packet //	t
-a1
-    { } options {packetx
-    = '\x00'	; u128= ""a	b""  ; }
-")).
-Eval vm_compute in ("<<<M505>>>" ++ check (runes_of_ascii "packet uint8x
-{ match pack
-    as msg_type	{
-    0123456789 :	float
-}
-,
-} packet //	t
-a1
-    { } options {packetx
-    = '\x00'	 u128= ""a	b""  ; }
-")).
-Eval vm_compute in ("<<<M703>>>" ++ check (runes_of_ascii "// @lengthOf(
-packet i8i8 { u128 o , }
-options '1'{ MetaDataX = true;
-    BodyLength =""packet"" x_y_z= 007
-crc //x
-= ""abc"" ;
-    msg_type =
-i16 }")).
-Eval vm_compute in ("<<<M120>>>" ++ check (runes_of_ascii "packet float {@calculatedFrom(
+:
+    As
+    42
+    : 
+rootA ,
+    0123456789
+	:
+repeatCount ,	""abc""
+:
+	Packet
+, ""1"" 
+:	trueish 
+""a	b""	: 
+    //x
 // " ++ [128512]%N ++ runes_of_ascii " emoji
-// packet A { u8 x, }
-""CRC32"" )Foo `" ++ [28040; 24687; 31867; 22411]%N ++ runes_of_ascii "`	,@calculatedFrom( ""a\\"" )
-    zchar[ 0 ]	msg_type `doc` , }")).
-Eval vm_compute in ("<<<M1771>>>" ++ check (runes_of_ascii "packet A {
-    match k as n {
-        [
-            1, 22, ""c c"", 4, 5,
-            ""f"", 7, 8, ""i"", 10
-        ] : B,
-        2 : C,
-    },
-}")).
-Eval vm_compute in ("<<<M714>>>" ++ check (runes_of_ascii "// @lengthOf(
-packet i8i8 { u128 o , }
-options { MetaDataX = true;
-    BodyLength =""packet"" x_y_z= 007
-crc //x
-= ""abc"" ;
-    msg_type")).
-Eval vm_compute in ("<<<M1932>>>" ++ check (runes_of_ascii "
-packet A	{
-    u16 
-len
-    @lengthOf(
-	body) `a
-b`
+		leftPad
+    ,
 
-    , u32 crc@calculatedFrom(""CRC32""
-)
-    `a
-b`,
-string
-body
-,
     }
 
-")).
-Eval vm_compute in ("<<<M1194>>>" ++ check (runes_of_ascii "// top
-packet // c0
-body // c1
-{ // c2
-i32 // c3
-f32a // c4
-`{ , }` // c5
-, // c6
-} // c7
-options // c8
-{ // c9
-} // c10
-")).
-Eval vm_compute in ("<<<M1158>>>" ++ check (runes_of_ascii "MetaData leftPad { chars MetaDataX , } packet
-// c
-repeatCount { char[ 255 ] uint8x `" ++ [233]%N ++ runes_of_ascii "` , } MetaData pack { As Foo , }")).
-Eval vm_compute in ("<<<M39>>>" ++ check (runes_of_ascii "options { o =
-    '\x00' // " ++ [128512]%N ++ runes_of_ascii " emoji
-; T = u32 ; msg_type
-// `tick` ""quote"" 'q'
-//
-= ""a	b""  a1 = '\x00'
-}
-// " ++ [128512]%N ++ runes_of_ascii " emoji
-")).
-Eval vm_compute in ("<<<M1244>>>" ++ check (runes_of_ascii "// top
-root // c0
-packet // c1
-P { // c3
-repeat // c4
-char cs
-    // c6
-, u8 x // c9a
-  // c9b
+,match	x as A // 50% %s
+	  {""`tick`""
+
+: trueish	, } , uint32	u8x  `tab	here`
+, tag @calculatedFrom(
+	""" ++ [28040; 24687]%N ++ runes_of_ascii """
+) , repeat  body  //	t
+	repeatCount
+    ,	@calculatedFrom( ""x y"" )
+asx
+
+@calculatedFrom(// `tick` ""quote"" 'q'
+
+	""a\""b""
+	), } ")).
+Eval vm_compute in ("<<<M315>>>" ++ check (runes_of_ascii "root packet float  {  repeat
+calculatedFrom
+metadata`say ""hi""` , Pad
+{ // " ++ [27880; 37322]%N ++ runes_of_ascii "
+repeat string o `" ++ [233]%N ++ runes_of_ascii "`
+    ,
+match string_ //	t
+as	u8x{// trailing space 
+[ ""abc""] :
+pack ,  [
+    ""a	b"" ]
+: // `tick` ""quote"" 'q'
+len 00
+: x  [ ""packet""  ] : uint8x
+    , [
+    ""abc"" , """"
+    //	t
+    ,""{,}"", 0123456789,
+""`tick`"", """ ++ [28040; 24687]%N ++ runes_of_ascii """
+    ]://
+Foo ,	}, f64
+a1
+    // c
+    `doc`
 , }
-    // c11
-")).
-Eval vm_compute in ("<<<M897>>>" ++ check (runes_of_ascii "packet A {
-  match k as n {
-    [""a"", 22, ""c c"", 4, ""e"", 66, ""g"", 8, ""i"", 10, ""k""] : B,
-    2 : C
-  },
-}")).
-Eval vm_compute in ("<<<M641>>>" ++ check (runes_of_ascii "
-packet
-    asx {match u128 as lengthOf
-{
-//	t
-// `tick` ""quote"" 'q'
-255 : x ,
-    } @lengthOf ,	}")).
-Eval vm_compute in ("<<<M1832>>>" ++ check (runes_of_ascii "
-
-  packet
-    A
-    {B b
-`a
-    b
-  c` ,
-B
-    `a
-    b
-  c`,
-	repeat B	bs `a
-    b
-  c` ,
-
+, char[]	Pad `{ , }`  , } root packet a1 { repeat i64_ stringy	, // 50% %s
 }
-")).
-Eval vm_compute in ("<<<M717>>>" ++ check (runes_of_ascii "// @lengthOf(
-packet i8i8 { u128 o , }
-options { MetaDataX = true;
-    BodyLength =""packet"" ")).
-Eval vm_compute in ("<<<M631>>>" ++ check (runes_of_ascii "
-packet
-    asx {match u128 as lengthOf
-{
-//	t
-// `tick` ""quote"" 'q'
-255 %: x ,
-    } ,	}")).
-Eval vm_compute in ("<<<M1572>>>" ++ check (runes_of_ascii "packet A {
-    match k as n {
-        [1, ""bb"", 007, ""d"", 5] : B,
-        2 : C,
+MetaData Packet {int32 tag , }")).
+Eval vm_compute in ("<<<M1956>>>" ++ check (runes_of_ascii "options {
+    ArrayPrefixLenType = u64;
+    FixedStringPadFromLeft = true;
+    FixedStringPadChar = '0';
+}
+
+packet Order {
+}
+
+root packet Leg {
+    char[] Ref,
+    repeat Order,
+    f32 Acct,
+    @leftPad('0')
+    char[10] venue,
+    @rightPad('0')
+    char[3] seqNo,
+    repeat u64 Px,
+    u8 Flags,
+    u32 lastPx @lengthOf(Body),
+    match Flags as Body {
+        185 : Order,
     },
+    u16 sym @calculatedFrom(""CR\
+        C32""),
 }")).
-Eval vm_compute in ("<<<M846>>>" ++ check (runes_of_ascii "packet A {
-  match k as n {
-    [""a"", 22, ""c c"", 4, ""e"", 66, ""g""] : B
-    2 : C
-  },
-}")).
-Eval vm_compute in ("<<<M815>>>" ++ check (runes_of_ascii "packet A {
-  match k as n {
-    [""a"", ""bb"", ""c c"", ""d"", ""e""] : B,
-    2 : C
-  },
-}")).
-Eval vm_compute in ("<<<M1612>>>" ++ check (runes_of_ascii "
-
-  packet A{	// a
-  @tag(  1 
-) u8
-x
-, // b
-	  // c
-		@tag( 2
-	)u8  y  , }
-")).
-Eval vm_compute in ("<<<M1518>>>" ++ check (runes_of_ascii "packet A {
-    B b `a
-    b`,
-    B `a
-    b`,
-    repeat B bs `a
-    b`,
-}")).
-Eval vm_compute in ("<<<M454>>>" ++ check (runes_of_ascii "packet uint8x
-{ match pack
-    as msg_type	{
-    0123456789 :	float
-}")).
-Eval vm_compute in ("<<<M628>>>" ++ check (runes_of_ascii "
-packet
-    asx {match u128 as lengthOf
-{
-//	t
-// `tick` ""quote""")).
-Eval vm_compute in ("<<<M778>>>" ++ check (runes_of_ascii "packet A {
-  match k as n {
-    [1, 22] : B,
-    2 : C
-  },
-}")).
-Eval vm_compute in ("<<<M1648>>>" ++ check (runes_of_ascii "
-packet
-A
-	{ B {// a
-	u8	x ,// b
-	}	// c
-
-,// d
-    }
-
-")).
-Eval vm_compute in ("<<<M1197>>>" ++ check (runes_of_ascii "// c
-packet body { i32 f32a `{ , }` , } options { }")).
-Eval vm_compute in ("<<<M1411>>>" ++ check (runes_of_ascii "packet A
-
-    {
-
-    u8 
-x
-	`d" ++ [65279]%N ++ runes_of_ascii "`
-	,// c" ++ [65279]%N ++ runes_of_ascii "
-  } ")).
-Eval vm_compute in ("<<<M1457>>>" ++ check (runes_of_ascii "MetaData o {
+Eval vm_compute in ("<<<M1867>>>" ++ check (runes_of_ascii "packet NewOrder {
+    u32 qty,
 }
 
-MetaData T {
+packet Cancel {
+    u64 id,
+}
+
+packet Business {
+    u8 Kind,
+    match Kind as Detail {
+        1 : NewOrder,
+        2 : Cancel,
+    },
+}
+
+packet TcpFrame {
+    u8 T,
+    match T as Body {
+        1 : Business,
+    },
+}
+
+packet UdpFrame {
+    u8 U,
+    match U as Body {
+        1 : Business,
+    },
+    Business extra,
+}
+
+root packet Wire {
+    TcpFrame,
+    UdpFrame,
+}")).
+Eval vm_compute in ("<<<M1199>>>" ++ check (runes_of_ascii "// top
+options
+    // c0
+{
+    // c1
+}
+    // c2
+options
+    // c3
+{
+    // c4
+MetaDataX
+    // c5
+=
+    // c6
+char
+    // c7
+;
+    // c8
+}
+    // c9
+MetaData
+    // c10
+Pad
+    // c11
+{
+    // c12
+i8
+    // c13
+metadata
+    // c14
+,
+    // c15
+string
+    // c16
+stringy
+    // c17
+,
+    // c18
+int8
+    // c19
+As
+    // c20
+`{ , }`
+    // c21
+,
+    // c22
+}
+    // c23
+")).
+Eval vm_compute in ("<<<M1587>>>" ++ check (runes_of_ascii "MetaData o {
+    MetaDataX As `crlf
+        line`,
+    string_ T,
+    zchar[1] Header,//	t
+}
+
+packet packetx {
+    // " ++ [128512]%N ++ runes_of_ascii " emoji
+    repeat char[10] crc `a\`,
+    @tag(42)
+    repeat char[] asx `// not a comment`,
+    zchar[007] len @lengthOf(u) `a\`,
+    @leftPad('\x00')
+    @tag(3)
+    @calculatedFrom(""a\""b"")
+    char[10] As `
+        `,
+}")).
+Eval vm_compute in ("<<<M130>>>" ++ check (runes_of_ascii "root packet
+    Z9_ { repeat /// triple
+MetaDataX { stringy ,
+    u32 pack , // @lengthOf(
+}
+    , } options
+{
+repeatCount =""it's"" metadata
+=
+""abc""
+A = // `tick` ""quote"" 'q'
+""CRC32"" ; x_y_z = // a // b
+char[ 007	] ;
+    } MetaData i8i8 {uint32  charz // a // b
+`doc`
+, //	t
+}root packet trueish { }")).
+Eval vm_compute in ("<<<M24>>>" ++ check (runes_of_ascii "packet float
+// trailing space 
+// c
+{ @leftPad (' ')repeat char[] MetaDataX , @leftPad (
+)
+    i16 x_y_z @calculatedFrom( ""CRC32""
+)
+, }packet chars {
+    } packet asx
+{
+@tag( 255)
+@tag( 4294967296 ) @calculatedFrom(
+""{,}""
+    // c
+    )
+matchKey /// triple
+o `
+` ,}
+")).
+Eval vm_compute in ("<<<M536>>>" ++ check (runes_of_ascii "packet
+    asx { @calculatedFrom(
+""""  ) @tag( 255 )repeat
+// packet A { u8 x, }
+// trailing space 
+int16 u8x
+,
+@tag(
+    //
+    007 )
+    @tag( @lengthOf0
+    /// triple
+    ) @tag( 1) u
+    @lengthOf( T ),
+// `tick` ""quote"" 'q'
+//x
+} // " ++ [128512]%N ++ runes_of_ascii " emoji")).
+Eval vm_compute in ("<<<M397>>>" ++ check (runes_of_ascii "packet
+    asx { { @calculatedFrom(
+""""  ) @tag( 255 )repeat
+// packet A { u8 x, }
+// trailing space 
+int16 u8x
+,
+@tag(
+    //
+    007 )
+    @tag( 0
+    /// triple
+    ) @tag( 1) u
+    @lengthOf( T ),
+// `tick` ""quote"" 'q'
+//x
+} // " ++ [128512]%N ++ runes_of_ascii " emoji")).
+Eval vm_compute in ("<<<M393>>>" ++ check (runes_of_ascii "packet
+    { asx @calculatedFrom(
+""""  ) @tag( 255 )repeat
+// packet A { u8 x, }
+// trailing space 
+int16 u8x
+,
+@tag(
+    //
+    007 )
+    @tag( 0
+    /// triple
+    ) @tag( 1) u
+    @lengthOf( T ),
+// `tick` ""quote"" 'q'
+//x
+} // " ++ [128512]%N ++ runes_of_ascii " emoji")).
+Eval vm_compute in ("<<<M519>>>" ++ check (runes_of_ascii "packet
+    asx { @calculatedFrom(
+""""  ) @tag( 255 )repeat
+// packet A { u8 x, }
+// trailing space 
+int16 u8x
+,
+@tag(
+    //
+    007 )
+    @tag( 0
+    /// triple
+    ) @tag( 1) u
+    @lengthOf( T );
+// `tick` ""quote"" 'q'
+//x
+} // " ++ [128512]%N ++ runes_of_ascii " emoji")).
+Eval vm_compute in ("<<<M481>>>" ++ check (runes_of_ascii "packet
+    asx { @calculatedFrom(
+""""  ) @tag( 255 )repeat
+// packet A { u8 x, }
+// trailing space 
+int16 u8x
+,
+@tag(
+    //
+    007 )
+    @tag( 0
+    /// triple
+    )  1) u
+    @lengthOf( T ),
+// `tick` ""quote"" 'q'
+//x
+} // " ++ [128512]%N ++ runes_of_ascii " emoji")).
+Eval vm_compute in ("<<<M1533>>>" ++ check (runes_of_ascii "MetaData repeatCount {
+    u8 x `// not a comment`,// @lengthOf(
+    char[] packetx,
+    u8 float,
+    float32 As `two words`,
+    Z9_ crc `" ++ [233]%N ++ runes_of_ascii "`,
+}
+
+MetaData int {
+    matchKey int,
+    leftPad metadata `100% of %d`,
+}")).
+Eval vm_compute in ("<<<M1299>>>" ++ check (runes_of_ascii "// top
+root
+    // c0
+packet // c1a
+  // c1b
+P
+    // c2
+{
+    // c3
+repeat string
+    // c5
+ss // c6
+, // c7
+repeat
+    // c8
+u16 // c9
+ns
+    // c10
+, // c11a
+  // c11b
+} // c12a
+  // c12b
+")).
+Eval vm_compute in ("<<<M228>>>" ++ check (runes_of_ascii "root packet
+    //	t
+    Logon {zchar[42// packet A { u8 x, }
+]
+// c
+// 50% %s
+uint8x `it's` ,
+    //x
+    @lengthOf( Z9_	) Pad{repeat// `tick` ""quote"" 'q'
+i64_ `" ++ [28040; 24687; 31867; 22411]%N ++ runes_of_ascii "` ,
+},	}
+
+")).
+Eval vm_compute in ("<<<M574>>>" ++ check (runes_of_ascii "MetaData u
+    { } MetaData zchar[
+{ float uint8x
+`100% of %d` ,repeatCount u8x, string_ leftPad
+, i32
+    Foo , int64 x `two words` , calculatedFrom
+stringy `a\` ,
+}
+")).
+Eval vm_compute in ("<<<M652>>>" ++ check (runes_of_ascii "MetaData u
+    { } MetaData o
+{ float uint8x
+`100% of %d` ,repeatCount u8x, string_ leftPad
+, i32
+    Foo , int64 x x `two words` , calculatedFrom
+stringy `a\` ,
+}
+")).
+Eval vm_compute in ("<<<M578>>>" ++ check (runes_of_ascii "MetaData u
+    { } MetaData o
+float { uint8x
+`100% of %d` ,repeatCount u8x, string_ leftPad
+, i32
+    Foo , int64 x `two words` , calculatedFrom
+stringy `a\` ,
+}
+")).
+Eval vm_compute in ("<<<M576>>>" ++ check (runes_of_ascii "MetaData u
+    { } MetaData o
+ float uint8x
+`100% of %d` ,repeatCount u8x, string_ leftPad
+, i32
+    Foo , int64 x `two words` , calculatedFrom
+stringy `a\` ,
+}
+")).
+Eval vm_compute in ("<<<M581>>>" ++ check (runes_of_ascii "MetaData u
+    { } MetaData o
+{  uint8x
+`100% of %d` ,repeatCount u8x, string_ leftPad
+, i32
+    Foo , int64 x `two words` , calculatedFrom
+stringy `a\` ,
+}
+")).
+Eval vm_compute in ("<<<M591>>>" ++ check (runes_of_ascii "MetaData u
+    { } MetaData o
+{ float uint8x
+ ,repeatCount u8x, string_ leftPad
+, i32
+    Foo , int64 x `two words` , calculatedFrom
+stringy `a\` ,
+}
+")).
+Eval vm_compute in ("<<<M1412>>>" ++ check (runes_of_ascii "packet lengthOf {
+    len charz `it's`,
 }
 
 options {
-}")).
-Eval vm_compute in ("<<<M1067>>>" ++ check (runes_of_ascii "packet A {    u8 x, // c    u8 y,}")).
-Eval vm_compute in ("<<<M197>>>" ++ check (runes_of_ascii "
-options {u8x
-=
-    ""packet"" ;	}
-")).
-Eval vm_compute in ("<<<M934>>>" ++ check (runes_of_ascii "root packet A {
-    u8 x `
-`,
-}")).
-Eval vm_compute in ("<<<M923>>>" ++ check (runes_of_ascii "packet A {
-    u8 x `a
-b`,
-}")).
-Eval vm_compute in ("<<<M1391>>>" ++ check (runes_of_ascii "
-// c
-
-packet
-	x
-	{
 }
 
+packet metadata {
+    string Pad @calculatedFrom(""" ++ [128512]%N ++ runes_of_ascii """) `crlf
+        line`,
+}// " ++ [128512]%N ++ runes_of_ascii " emoji")).
+Eval vm_compute in ("<<<M1672>>>" ++ check (runes_of_ascii "root packet matchKey {
+    Z9_ @calculatedFrom(""""),
+}
+
+MetaData pack {
+    u32 leftPad,
+    x zchar,
+    uint32 i8i8,
+    u16 zchar,
+}")).
+Eval vm_compute in ("<<<M1539>>>" ++ check (runes_of_ascii "options {
+} options{ 
+MetaDataX  = char	;
+} MetaData
+Pad {  // c
+
+i8
+    metadata 
+,
+string stringy 
+, int8  As
+
+`{ , }`
+
+,}")).
+Eval vm_compute in ("<<<M278>>>" ++ check (runes_of_ascii "options { A =
+""\n""
+    ; // @lengthOf(
+len = ' ' ;body =
+4294967296
+    ;	int=3 charz ='0' }
+// packet A { u8 x, }
 ")).
-Eval vm_compute in ("<<<M51>>>" ++ check (runes_of_ascii "options {} // " ++ [128512]%N ++ runes_of_ascii " emoji")).
-Eval vm_compute in ("<<<M1128>>>" ++ check (runes_of_ascii "// c
-MetaData u { }")).
-Eval vm_compute in ("<<<M1017>>>" ++ check (runes_of_ascii "// c" ++ [8233]%N ++ runes_of_ascii "
+Eval vm_compute in ("<<<M1217>>>" ++ check (runes_of_ascii "options { } options { MetaDataX = char // c
+; } MetaData Pad { i8 metadata , string stringy , int8 As `{ , }` , }")).
+Eval vm_compute in ("<<<M1588>>>" ++ check (runes_of_ascii "
+
+  packet	order_item
+
+    {u8	a
+
+    ,
+	}
+root
+
+    packet 
+new_order 
+{
+	order_item ,
+u8
+x
+
+    , 
+}
+")).
+Eval vm_compute in ("<<<M906>>>" ++ check (runes_of_ascii "packet A {
+  match k as n {
+    [1, ""bb"", 007, ""d"", 5, ""f"", 7, ""h"", 9, ""j"", 11, ""l""] : B,
+    2 : C
+  },
+}")).
+Eval vm_compute in ("<<<M887>>>" ++ check (runes_of_ascii "packet A {
+  match k as n {
+    [""a"", ""bb"", 007, ""d"", ""e"", 66, ""g"", ""h"", 9, ""j""] : B
+    2 : C
+  },
+}")).
+Eval vm_compute in ("<<<M902>>>" ++ check (runes_of_ascii "packet A {
+  match k as n {
+    [1, 22, 007, 4, 5, 66, 7, 8, 9, 10, 11, 12] : B,
+    2 : C
+  },
+}")).
+Eval vm_compute in ("<<<M1464>>>" ++ check (runes_of_ascii "
+root packet SimpleMessage{	uint16 MsgType
+    `" ++ [28040; 24687; 31867; 22411]%N ++ runes_of_ascii "`  ,  string
+	JsonBody
+
+`Json" ++ [23383; 31526; 20018; 28040; 24687; 20307]%N ++ runes_of_ascii "` 
+,}")).
+Eval vm_compute in ("<<<M848>>>" ++ check (runes_of_ascii "packet A {
+  match k as n {
+    [""a"", ""bb"", 007, ""d"", ""e"", 66, ""g""] : B
+    2 : C
+  },
+}")).
+Eval vm_compute in ("<<<M841>>>" ++ check (runes_of_ascii "packet A {
+  match k as n {
+    [1, ""bb"", 007, ""d"", 5, ""f"", 7] : B,
+    2 : C
+  },
+}")).
+Eval vm_compute in ("<<<M1578>>>" ++ check (runes_of_ascii "packet A {
+    B b `
+        `,
+    B `
+        `,
+    repeat B bs `
+        `,
+}")).
+Eval vm_compute in ("<<<M1139>>>" ++ check (runes_of_ascii "// top
+root
+    // c0
+packet
+    // c1
+a1
+    // c2
+{
+    // c3
+}
+    // c4
+")).
+Eval vm_compute in ("<<<M811>>>" ++ check (runes_of_ascii "packet A {
+  match k as n {
+    [1, 22, 007, 4, 5] : B,
+    2 : C
+  },
+}")).
+Eval vm_compute in ("<<<M171>>>" ++ check (runes_of_ascii "MetaData
+//
+// " ++ [128512]%N ++ runes_of_ascii " emoji
+falsey { char[] f32a
+, //	t
+} packet
+As{
+}
+")).
+Eval vm_compute in ("<<<M780>>>" ++ check (runes_of_ascii "packet A {
+  match k as n {
+    [1, ""bb""] : B,
+    2 : C
+  },
+}")).
+Eval vm_compute in ("<<<M1521>>>" ++ check (runes_of_ascii "options {
+}
+
+packet Foo {
+    // 50% %s
+    // @lengthOf(
+}")).
+Eval vm_compute in ("<<<M230>>>" ++ check (runes_of_ascii "MetaData // " ++ [27880; 37322]%N ++ runes_of_ascii "
+Foo {
+rootA f32a
+    //
+    , }
+//	t
+")).
+Eval vm_compute in ("<<<M1470>>>" ++ check (runes_of_ascii "root 
+packet
+A
+
+{	u8 x `100% of %s %d %v`	, }
+
+")).
+Eval vm_compute in ("<<<M973>>>" ++ check (runes_of_ascii "MetaData M {
+    u8 x `%`,
+    T t `%`,
+}")).
+Eval vm_compute in ("<<<M1182>>>" ++ check (runes_of_ascii "
+// c
+options { A = ""// no comment"" }")).
+Eval vm_compute in ("<<<M365>>>" ++ check (runes_of_ascii "
+MetaData x_y_z {// c
+Pad roots , }")).
+Eval vm_compute in ("<<<M1062>>>" ++ check (runes_of_ascii "packet A {
+ u8 x `d 	`, // c 	
+}")).
+Eval vm_compute in ("<<<M1037>>>" ++ check (runes_of_ascii "packet A {
+ u8 x `d" ++ [8233]%N ++ runes_of_ascii "`, // c" ++ [8233]%N ++ runes_of_ascii "
+}")).
+Eval vm_compute in ("<<<M1084>>>" ++ check (runes_of_ascii "packet A {
+}// a// b// c
+")).
+Eval vm_compute in ("<<<M1144>>>" ++ check (runes_of_ascii "root
+// c
+packet a1 { }")).
+Eval vm_compute in ("<<<M150>>>" ++ check (runes_of_ascii "options //	t
+{
+    }")).
+Eval vm_compute in ("<<<M1046>>>" ++ check (runes_of_ascii "// c" ++ [8287]%N ++ runes_of_ascii "
 packet A {
 }")).
-Eval vm_compute in ("<<<M994>>>" ++ check (runes_of_ascii "packet A {
-}// c" ++ [5760]%N)).
-Eval vm_compute in ("<<<M761>>>" ++ check (runes_of_ascii "{];z" ++ [65533]%N ++ runes_of_ascii """t" ++ [65533; 65533; 65533]%N ++ runes_of_ascii "XKU" ++ [65533; 2]%N)).
-Eval vm_compute in ("<<<M741>>>" ++ check ([65533; 65533]%N ++ runes_of_ascii "1" ++ [65533]%N ++ runes_of_ascii "dcV")).
-Eval vm_compute in ("<<<M733>>>" ++ check (runes_of_ascii "
-
-
-")).
+Eval vm_compute in ("<<<M1043>>>" ++ check (runes_of_ascii "packet A {
+}// c" ++ [8287]%N)).
+Eval vm_compute in ("<<<M746>>>" ++ check (runes_of_ascii "uint64 int16 {")).
+Eval vm_compute in ("<<<M1019>>>" ++ check (runes_of_ascii "// c" ++ [8192]%N)).
